@@ -23,6 +23,8 @@ SIG_MODULES = ["Crypto.Signature.DSS", "Crypto.Signature.eddsa",
 
 def run(check, ctx):
     repo = ctx.repo
+    der_signature_rows(check, repo)
+    pss_em_length_rows(check, repo)
     # -- strict DER decoding of the (r, s) sequence -----------------------------
     mod = repo.module("Crypto.Signature.DSS")
     fn = repo.func(mod, "DssSigScheme.verify")
@@ -163,3 +165,127 @@ def _fn_of(node):
     if f is None and isinstance(node, ast.FunctionDef):
         f = node
     return getattr(f, "_qualname", "?")
+
+
+def der_signature_rows(check, repo):
+    """DSS.verify(encoding='der') on concrete encodings, the real ASN.1 decoder interpreted: only the canonical DER
+    SEQUENCE { INTEGER r, INTEGER s } reaches the verification equation."""
+    from ..spec import der
+    from ..absval import AObj
+    DSS = "Crypto.Signature.DSS"
+    mod = repo.module(DSS)
+    fn = repo.func(mod, "DssSigScheme.verify")
+    order = (1 << 255) - 19
+    r, s_ = 0x1234567890ABCDEF, (1 << 254) + 77
+    ok = der.seq(der.integer(r), der.integer(s_))
+    big = (1 << 255) + 5       # needs a leading zero byte in DER (top bit set)
+    cases = [
+        ("canonical", ok, True),
+        ("canonical, top bit set (one leading zero is required)", der.seq(der.integer(r), der.integer(order - 1)), True),
+        ("r with a redundant leading zero", der.seq(der.tlv(2, b"\x00" + r.to_bytes(8, "big")), der.integer(s_)), False),
+        ("s with a redundant leading zero", der.seq(der.integer(r), der.tlv(2, b"\x00" + s_.to_bytes(32, "big"))), False),
+        ("r with two leading zeros", der.seq(der.tlv(2, b"\x00\x00" + r.to_bytes(8, "big")), der.integer(s_)), False),
+        ("length of r in long form", der.seq(b"\x02\x81\x08" + r.to_bytes(8, "big"), der.integer(s_)), False),
+        ("length of the sequence in long form", b"\x30\x81" + bytes([len(ok) - 2]) + ok[2:], False),
+        ("trailing byte after the sequence", ok + b"\x00", False),
+        ("trailing byte inside the sequence", der.seq(der.integer(r), der.integer(s_), b"\x05\x00"), False),
+        ("three integers", der.seq(der.integer(r), der.integer(s_), der.integer(1)), False),
+        ("one integer", der.seq(der.integer(r)), False),
+        ("negative r", der.seq(der.integer(-r), der.integer(s_)), False),
+        ("r = 0", der.seq(der.integer(0), der.integer(s_)), False),
+        ("s = order", der.seq(der.integer(r), der.integer(order)), False),
+        ("empty INTEGER", der.seq(b"\x02\x00", der.integer(s_)), False),
+        ("OCTET STRING instead of INTEGER", der.seq(der.octets(r.to_bytes(8, "big")), der.integer(s_)), False),
+        ("truncated", ok[:-1], False),
+        ("empty", b"", False),
+    ]
+    wrong = []
+    for what, sig, accept in cases:
+        seen = []
+
+        def m_verify(i, base, a, kw, st, node, seen=seen):
+            seen.append(a)
+            return True
+        it = Interp(repo, max_depth=12, budget=3000000, method_models={"_verify": m_verify, "_valid_hash": lambda i, base, a, kw, st, node: True,
+                                                                       "digest": lambda i, base, a, kw, st, node: bytes(32)},
+                    extra_models={"Crypto.Util.asn1.DerSequence": False, "Crypto.Util.asn1.DerInteger": False,
+                                  "Crypto.Util.asn1.DerObject": False, "Crypto.Util.asn1.BytesIO_EOF": False})
+        st = State()
+        me = it.new_obj(st, mod, repo.cls(mod, "DeterministicDsaSigScheme"), havoc=False)
+        st.heap[me.ident].update({"_encoding": "der", "_order": order, "_order_bits": 255, "_order_bytes": 32,
+                                  "_key": it.new_obj(st, label="key"), "_private_key": UNK})
+        res = it.run(mod, fn, {"msg_hash": it.new_obj(st, label="hash"), "signature": sig}, self_obj=me, state=st)
+        reached = bool(seen)
+        if accept:
+            good = reached and not res.rejected()
+            if good:
+                a = seen[0]
+                vals = a[1] if len(a) > 1 else None
+                if not (isinstance(vals, tuple) and len(vals) == 2):
+                    good = False
+            if not good:
+                wrong.append("%s: refused (%s)" % (what, ",".join(res.raise_classes()) or "no call of the verification equation"))
+        else:
+            if reached or not res.rejected():
+                wrong.append("%s: reaches the verification equation" % what)
+            elif set(res.raise_classes()) - set(["ValueError"]):
+                wrong.append("%s: raises %s" % (what, ",".join(res.raise_classes())))
+    check.ob("G", "G|dss.der.encodings", not wrong, mod.path, fn.lineno,
+             extracted="; ".join(wrong[:4]) if wrong else "%d encodings: only canonical DER SEQUENCE { INTEGER r, INTEGER s } with 0 < r, s < n reaches _verify; everything else raises ValueError" % len(cases),
+             expected="X.690 DER is strict for the members of the sequence too: no redundant leading zeros, short-form lengths, no trailing data")
+
+
+def pss_em_length_rows(check, repo):
+    """RSASSA-PSS: the encoded message handed to EMSA-PSS-VERIFY / produced by EMSA-PSS-ENCODE is
+    emLen = ceil((modBits-1)/8) bytes for every modulus size, also when modBits = 1 mod 8 (then emLen = k-1)."""
+    PSS = "Crypto.Signature.pss"
+    mod = repo.module(PSS)
+    cls = repo.cls(mod, "PSS_SigScheme")
+    wrong = []
+    n = 0
+    for modbits in (1024, 1025, 1026, 1031, 1032, 1033, 2049):
+        nmod = (1 << (modbits - 1)) + 12345
+        k = (modbits + 7) // 8
+        emlen = (modbits - 1 + 7) // 8
+        for em_int in (1, (1 << (modbits - 2)) + 99):
+            seen = {}
+
+            def m_verify(i, a, kw, st, node, seen=seen):
+                seen["em"] = a[1] if len(a) > 1 else None
+                seen["embits"] = a[2] if len(a) > 2 else None
+                return None
+            it = Interp(repo, max_depth=4, extra_models={PSS + "._EMSA_PSS_VERIFY": m_verify},
+                        method_models={"_encrypt": lambda i, base, a, kw, st, node, em_int=em_int: em_int})
+            st = State()
+            me = it.new_obj(st, mod, cls, havoc=False)
+            st.heap[me.ident].update({"_key": it.new_obj(st, label="key", attrs={"n": nmod, "e": 65537}), "_saltLen": 20,
+                                      "_mgfunc": UNK, "_randfunc": UNK})
+            res = it.run(mod, repo.func(mod, "PSS_SigScheme.verify"),
+                         {"msg_hash": it.new_obj(st, label="hash", attrs={"digest_size": 20}), "signature": bytes([1]) * k},
+                         self_obj=me, state=st)
+            n += 1
+            em = seen.get("em")
+            ln = len(em) if isinstance(em, (bytes, bytearray)) else getattr(em, "n", None)
+            if ln != emlen or seen.get("embits") != modbits - 1:
+                wrong.append("%d-bit modulus: EMSA-PSS-VERIFY receives EM of %r bytes (emBits %r), RFC 8017 8.1.2 step 2c: emLen = %d" % (
+                    modbits, ln, seen.get("embits"), emlen))
+            elif isinstance(em, (bytes, bytearray)) and int.from_bytes(em, "big") != em_int:
+                wrong.append("%d-bit modulus: EM does not encode the RSAVP1 result" % modbits)
+        # a signature that is not k bytes long is refused
+        for bad in (k - 1, k + 1):
+            it = Interp(repo, max_depth=4, extra_models={PSS + "._EMSA_PSS_VERIFY": lambda i, a, kw, st, node: None},
+                        method_models={"_encrypt": lambda i, base, a, kw, st, node: 5})
+            st = State()
+            me = it.new_obj(st, mod, cls, havoc=False)
+            st.heap[me.ident].update({"_key": it.new_obj(st, label="key", attrs={"n": nmod, "e": 65537}), "_saltLen": 20,
+                                      "_mgfunc": UNK, "_randfunc": UNK})
+            res = it.run(mod, repo.func(mod, "PSS_SigScheme.verify"),
+                         {"msg_hash": it.new_obj(st, label="hash", attrs={"digest_size": 20}), "signature": bytes([1]) * bad},
+                         self_obj=me, state=st)
+            n += 1
+            if not res.rejected():
+                wrong.append("%d-bit modulus: a %d-byte signature is not refused (k = %d)" % (modbits, bad, k))
+    fn = repo.func(mod, "PSS_SigScheme.verify")
+    check.ob("K-pw", "K-pw|pss.verify.emlen", not wrong, mod.path, fn.lineno,
+             extracted="; ".join(wrong[:3]) if wrong else "%d rows: EM is I2OSP(m, ceil((modBits-1)/8)) with emBits = modBits-1 for 7 modulus sizes including 1 mod 8; signatures not k bytes long refused" % n,
+             expected="RFC 8017 8.1.2: the signature is k bytes, the encoded message emLen = ceil((modBits-1)/8) bytes")
